@@ -294,8 +294,9 @@ def core_checked(bindir, wss, fails, stats=None):
 #  * group outline: tools/translate/t_handlers.py regenerates coq/gen/GenHandlers.v from the CURRENT handlers/goto_definition.rs and
 #    handlers/references.rs `exec`; props/HandlersSource.v: the rendering is SymbolMap.goto_definition / SymbolMap.references.
 INDEXER_TRANSLATORS = ["t_indexer", "t_bangops", "t_typ"]
-# HandlersSource.v also states C20_dispatch_is_source, whose cone needs GenCompletion.v (t_completion) and GenFoldKinds.v
-HANDLER_TRANSLATORS = ["t_foldkinds", "t_completion", "t_handlers"]
+# (GenHandlersEq's cone needs GenFoldKinds.v; HostHandlersSource's cone needs GenFilesystem.v)
+HANDLER_TRANSLATORS = ["t_foldkinds", "t_handlers"]
+DIAG_TRANSLATORS = ["t_foldkinds", "t_handlers", "t_filesystem"]
 INDEXER_SOURCE_THEOREMS = ["Indexer_model_is_source_partial"]
 BANGOPS_SOURCE_THEOREMS = ["BangOps_model_is_source_partial", "BangOps_covered_ops_complete", "BangOps_all_arms_rendered",
                            "BangOps_model_is_source_all"]
@@ -305,8 +306,8 @@ INDEXER_SOURCE_TRUSTED = (
     "for Core programs the hand models are ALSO tied to their source by translation + proof: coq/model/{Scope,Indexer}.v for the "
     "functions listed in props/IndexerSource.v Indexer_model_is_source_partial (t_indexer -> coq/gen/GenIndexer.v rendered on every "
     "run from the current index/scope.rs, index/context.rs and index.rs; proofs/GenIndexerEq.v; design/notes-translator-indexer.md: "
-    "about 60 of the 65 functions of scope.rs / context.rs / index.rs - the statement lists exactly the covered ones; not "
-    "check_template_args, Context::new / finish, the salsa entry point `index`); "
+    "all 66 functions of scope.rs / context.rs / index.rs are rendered, 64 of them with a lemma - values, check_template_args "
+    "and the `index` entry included; the statement lists exactly the covered ones); "
     "coq/model/BangOps.v + Indexer.index_bang for ALL 51 operators of index/bang_operator.rs (t_bangops -> coq/gen/GenBangOps.v; "
     "props/BangOpsSource.v BangOps_model_is_source_all with BangOps_covered_ops_complete and BangOps_all_arms_rendered; "
     "design/notes-translator-bangops.md); the type functions of coq/model/Scope.v (element_typ, is_bits / is_list / is_record, "
@@ -315,7 +316,7 @@ INDEXER_SOURCE_TRUSTED = (
     "to the plain depth-first is_subclass_of / find_field of Scope.v, whose equality with record.rs's visited-set versions is "
     "C05_subclass_visited_set / C05_field_lookup_visited_set; design/notes-translator-typ.md); trusted there: the translators "
     "t_indexer / t_bangops / t_typ (Rust subset readers) and the vocabulary files coq/model/IndexerSrc.v, BangOpsSrc.v.  The AST "
-    "accessor table stays a trusted table, tied by the correspondence run only")
+    "accessor -> CoreAst field table of the translators and db.rs / salsa are what is NOT tied by translation in the ide crate")
 HANDLERS_SOURCE_TRUSTED = (
     "handlers/goto_definition.rs and handlers/references.rs `exec` are tied to SymbolMap.goto_definition / SymbolMap.references by "
     "translation + proof (t_handlers -> coq/gen/GenHandlers.v rendered on every run; props/HandlersSource.v Goto_model_is_source, "
@@ -328,16 +329,30 @@ SOURCE_TIES = [
     ("BangOpsSource", "TG.Props.BangOpsSource", BANGOPS_SOURCE_THEOREMS, "props/BangOpsSource.vo", None),
     ("TypSource", "TG.Props.TypSource", TYP_SOURCE_THEOREMS, "props/TypSource.vo", None),
 ]
+DIAG_HANDLER_TRUSTED = (
+    "handlers/diagnostics.rs `exec` is tied by translation + proof (t_handlers -> coq/gen/GenHandlersHost.v rendered on every run; "
+    "props/HostHandlersSource.v Diagnostics_model_is_source: the rendering returns, per workspace file, the parse errors of every "
+    "workspace file followed by the index diagnostics, and projected to (range, class) that list is Indexer.diagnostics w whenever "
+    "the database's parse errors / index diagnostics are the workspace's); the syntax-error clause is composed with the model "
+    "pipeline in props/C13Pipeline.v (group symmap: C13_pipeline_perrs_exact, C13_pipeline_syntax_errors, "
+    "C13_pipeline_files_parsed: the parse-error ranges of a Core workspace are exactly the modelled parser's errors of the "
+    "workspace files); trusted there: the translator t_handlers, coq/model/HandlerHostApi.v, the message-class table")
+DIAG_TIES = [
+    ("HostHandlersSource", "TG.Props.HostHandlersSource", ["Diagnostics_model_is_source"], "props/HostHandlersSource.vo",
+     DIAG_HANDLER_TRUSTED),
+    ("C13Pipeline", "TG.Props.C13Pipeline", ["C13_pipeline_perrs_exact", "C13_pipeline_syntax_errors", "C13_pipeline_files_parsed"],
+     "props/C13Pipeline.vo", None),
+]
 HANDLER_TIES = [
     ("HandlersSource", "TG.Props.HandlersSource", HANDLERS_SOURCE_THEOREMS, "props/HandlersSource.vo", HANDLERS_SOURCE_TRUSTED),
 ]
 
 
-def source_tie(ctx, fails, handlers=False):
+def source_tie(ctx, fails, handlers=False, diags=False):
     """obligations shared by C05 / C13: the hand models are the CURRENT source text (the translators INDEXER_TRANSLATORS, and
-    HANDLER_TRANSLATORS with `handlers`, must be among the translators of the check's proof_step, which runs before this)"""
+    HANDLER_TRANSLATORS with `handlers`, DIAG_TRANSLATORS with `diags`, must be among the translators of the check's proof_step, which runs before this)"""
     out = []
-    for pre, module, theorems, target, trusted in SOURCE_TIES + (HANDLER_TIES if handlers else []):
+    for pre, module, theorems, target, trusted in SOURCE_TIES + (HANDLER_TIES if handlers else []) + (DIAG_TIES if diags else []):
         r = vlib.prove(module, theorems, [target])
         fails += r["failures"]
         ctx.cov["obligations"] = ctx.cov.get("obligations", 0) + r["obligations"]
